@@ -199,7 +199,8 @@ EpcFails(a, d) ==
 CONSTANTS Alphabet, MaxLen, MaxFields
 VARIABLES fields
 Texts == UNION {[1..k -> Alphabet] : k \in 0..MaxLen}
-Init == fields \in UNION {[1..k -> ({<<97>>, <<98, 99>>} \X Texts)] : k \in 1..MaxFields}
+\* (the function sets are enumerated lazily: no UNION over them, which TLC would materialise)
+Init == \E k \in 1..MaxFields : fields \in [1..k -> ({<<97>>, <<98, 99>>} \X Texts)]
 Next == UNCHANGED fields
 RoundTrip == LET sc == Scan(Build(fields)) IN sc.clean /\ NonEmpty(sc.fields) = NonEmpty(fields) /\ Len(sc.fields) = Len(fields) + 1
 \* no value can forge or terminate a field: the number of fields never depends on the values
